@@ -326,14 +326,14 @@ def run_batchm(chk, thorough):
         ba, bb = MIX[kind]
         for a in get(ba):
             for b in get(bb):
-                for op in ("matmul", "add"):
-                    if op == "add" and b.zero:
-                        continue   # `X + Zero(b…)` returns X without broadcasting: open finding D52, reported by the pairs part
+                for op in ("matmul", "add") + (("mulm",) if b.zero else ()):
+                    if op == "mulm" and a.name == "Root":
+                        continue
                     if not thorough and kind != "32v2":
                         h = zlib.crc32(f"{a.name}|{b.name}|{op}".encode())
                         if kinds[1 + (h + chk.seed) % (len(kinds) - 1)] != kind:
                             continue
-                    f = (lambda x, y: x @ y) if op == "matmul" else (lambda x, y: x + y)
+                    f = (lambda x, y: x @ y) if op == "matmul" else ((lambda x, y: x + y) if op == "add" else (lambda x, y: x * y))
                     try:
                         res = f(a.build(), b.build())
                     except Exception:
@@ -348,6 +348,13 @@ def run_batchm(chk, thorough):
                         base = f"{sym} leaf {benc(a.build())} leaf {benc(b.build())}" if modelled else None
                     except NotEncodable:
                         base = None
+                    direct = a.name.split("(")[0].split("<")[0] in ("Dense", "Toeplitz", "Root", "Sum", "Matmul", "ConstantMul", "ConstantMul0d")
+                    if b.zero and (op == "mulm" or (op == "add" and direct)) and not a.zero and is_op(res):
+                        # d734ac2: `A + Zero` = A broadcast (`addZeroRight`), `A * Zero` = Zero of the broadcast shape (`mulZeroRight`)
+                        try:
+                            base = f"{'addz' if op == 'add' else 'mulz'} {shp(bb)} leaf {benc(a.build())}"
+                        except NotEncodable:
+                            base = None
                     if op == "add" and modelled and a.name.startswith("Sum"):
                         base = None   # SumLinearOperator.__add__ flattens: the unbatched model's ladder
                     dres = f(a.dense, b.dense)
